@@ -668,6 +668,27 @@ type Node struct {
 type UnionCase struct {
 	Typ  int  `json:"typ"`
 	Root Node `json:"root"`
+	// Shared: all []T members of the nesting are consecutive windows of ONE backing array (in left-to-right order),
+	// each with its capacity reaching to the end of that array - so an earlier []T has spare capacity in which the
+	// later ones live (what Chunk, or slicing one buffer, produces). The expected result is the same.
+	Shared bool `json:"shared,omitempty"`
+}
+
+// arena hands out consecutive windows of one backing array.
+type arena[T any] struct {
+	base []T
+	off  int
+}
+
+func countSliceCodes(n Node) int {
+	t := 0
+	if n.K == kSlice {
+		t = len(n.V)
+	}
+	for _, c := range n.C {
+		t += countSliceCodes(c)
+	}
+	return t
 }
 
 type myInt int
@@ -739,16 +760,26 @@ func badVariant(n Node) int {
 }
 
 // build turns the model tree into the value handed to Union.
-func build[T comparable](n Node, f func(int) T, typ int) any {
+func build[T comparable](n Node, f func(int) T, typ int) any { return buildIn[T](n, f, typ, nil) }
+
+func buildIn[T comparable](n Node, f func(int) T, typ int, ar *arena[T]) any {
 	switch n.K {
 	case kLeaf:
 		return f(nodeCode(n, 0))
 	case kSlice:
+		if ar != nil {
+			w := ar.base[ar.off : ar.off+len(n.V)]
+			for i, c := range n.V {
+				w[i] = f(c)
+			}
+			ar.off += len(n.V)
+			return w
+		}
 		return conv(n.V, f)
 	case kAny:
 		out := make([]any, len(n.C))
 		for i := range n.C {
-			out[i] = build(n.C[i], f, typ)
+			out[i] = buildIn(n.C[i], f, typ, ar)
 		}
 		return out
 	}
@@ -925,11 +956,11 @@ func unionOutOfEnum(c UnionCase, thorough bool) bool {
 	var st treeStats
 	walk(c.Root, 0, &st)
 	bads := 0
-	return st.nodes > sc.budget || !inUnionScope(c.Root, sc, 0, true, &bads) || bads > sc.maxBad
+	return c.Shared || st.nodes > sc.budget || !inUnionScope(c.Root, sc, 0, true, &bads) || bads > sc.maxBad
 }
 
 func genUnion(s pbt.Src, thorough bool) UnionCase {
-	c := UnionCase{Typ: s.Intn(nTyp)}
+	c := UnionCase{Typ: s.Intn(nTyp), Shared: s.Intn(3) == 0}
 	allowBad := s.Intn(3) == 0
 	lo, alpha := -s.Intn(3), 2+s.Intn(8)
 	code := func(s pbt.Src) int { return lo + s.Intn(alpha) }
@@ -997,7 +1028,13 @@ func validKinds(n Node, level int) bool {
 func runUnion[T comparable](c UnionCase, f func(int) T, r *pbt.R) error {
 	var st treeStats
 	walk(c.Root, 0, &st)
-	in := build(c.Root, f, c.Typ)
+	var in any
+	if c.Shared {
+		in = buildIn(c.Root, f, c.Typ, &arena[T]{base: make([]T, countSliceCodes(c.Root))})
+		r.Label("[]T members are windows of one backing array")
+	} else {
+		in = build(c.Root, f, c.Typ)
+	}
 	got, err := gogu.Union[T](in)
 
 	if st.bad {
@@ -1081,11 +1118,14 @@ func TestProp(t *testing.T) {
 				"result == quadratic Unique of the left-to-right flattening of the model tree; any malformed element anywhere: non-nil error (result unconstrained). " +
 				"Enumerated (int; quick): every tree with <= 5 nodes below the top, fan-out <= 4, []any depth <= 3, []T leaves of length <= 2 over 2 values and at most one malformed " +
 				"element (nil, foreign scalar, [][]T{{v}}, [][]T{}) at any position incl. the top; string/float64: <= 4 nodes; thorough: int <= 6 nodes and all 10 malformed variants, string/float64 <= 5 nodes. " +
-				"Random: []any depth up to 5 (7), fan-out up to 6, []T up to 6 over 2..9 values incl. negative codes, malformed elements (any number, all variants) allowed in 1/3 of the cases. " +
+				"Random: in 1/3 of the cases all []T members are consecutive windows of ONE backing array (an earlier one has spare capacity in which the later ones live); []any depth up to 5 (7), fan-out up to 6, []T up to 6 over 2..9 values incl. negative codes, malformed elements (any number, all variants) allowed in 1/3 of the cases. " +
 				"Non-trivial = malformed, or the flattening repeats a value, or an inner slice is empty, or a []any is nested in a []any. Distinct = enumerated (injective) + hash-distinct random outside the scope.",
 			Enum: enumUnion, Gen: genUnion, Prop: unionProp, OutOfEnum: unionOutOfEnum,
 			RapidQuick: 1500, RapidThorough: 20000,
 			Fixed: []UnionCase{
+				// windows of one array: a[:1], 9, a[1:]
+				{Typ: typInt, Shared: true, Root: anyOf(sl(1), leaf(9), sl(2, 3, 4))},
+				{Typ: typInt, Shared: true, Root: anyOf(sl(1, 2), anyOf(sl(3), leaf(1)), sl(4, 1))},
 				// the repository's own example
 				{Typ: typInt, Root: anyOf(anyOf(leaf(1), leaf(2), anyOf(leaf(3), sl(4, 5, 6))), leaf(7), sl(1, 2), leaf(3), sl(4, 7), leaf(8), leaf(9), leaf(9))},
 				{Typ: typString, Root: sl(0, 1, 0)},
